@@ -468,7 +468,9 @@ theorem liveStep_read (E : Env) (w : Writable) (path : List PStep) (s s' : TStat
   | listInsert p i v => left; simp only [liveStep] at h; split at h <;> simp at h; exact h.2.2.symm
   | listDel p i => left; simp only [liveStep] at h; split at h <;> simp at h; exact h.2.2.symm
 
-/-- **ref_proxy_history** — for every form tree, target path, writable mode and history of
+/-- **ref_proxy_history** — (holds by construction of `liveStep`, whose read IS "resolve the path
+    against the current tree"; that the code does this is checked by correspondence and oracle, and
+    `cachedRef_fails` shows a Ref implementation for which it is false) for every form tree, target path, writable mode and history of
     operations on the tree (scalar sets, `Dict.set` that rebuilds members, list set / insert /
     delete before or at the target position, Ref reads, Ref writes), every Ref read returns the
     value and text of the element that the path denotes in the tree at that moment. -/
@@ -551,7 +553,8 @@ def refPath : List PStep := [.name "sub".toList, .name "t".toList]
 
 /-- KF-C18-b as a counter-model: with a cached target, `sub.set({'t': '1'}); r.value;
     sub.set({'t': '2'}); r.value` reads '1' while the path denotes the element holding '2' — so
-    `ref_proxy_history` is a statement about resolving at every access, not a definition -/
+    `ref_proxy_history`, true of the live model by construction, is false of this one: the statement
+    separates the two implementations -/
 theorem cachedRef_fails :
     ¬ ∀ (c : CachedState) (ops : List TOp),
         ReadsDenoted (cachedStep plainEnv refPath) (·.base.tree) refPath c ops = true := by
